@@ -102,6 +102,55 @@ Proof.
 Qed.
 
 (* the number of callback invocations: one per piece, k + 1 for k separators *)
+(* the loop of applyGParagraphsOpts is: compute the pieces (with the repair when the separators
+   are ambiguous), then call the callback once per piece, in order, with index, piece, the
+   separator's suffix part before every piece but the first and its prefix part after every
+   piece but the last, and concatenate the results *)
+Fixpoint run_paras `{Classifier} (op : gpara_op) (idx : Z) (rs : list (list Z)) (np psf : gstr) : Res (list (list Z)) :=
+  match rs with
+  | [] => Ok []
+  | r :: rest =>
+      do x <- op idx (decode r) (if idx =? 0 then [] else np) (match rest with [] => [] | _ => psf end);
+      do more <- run_paras op (idx + 1) rest np psf;
+      Ok (map encode x ++ more)
+  end.
+
+Lemma paras_loop_spec `{Classifier} (op : gpara_op) lsep np psf : forall ps idx trim,
+  paras_loop op idx ps trim true lsep np psf = run_paras op idx (repair ps lsep trim) np psf.
+Proof.
+  induction ps as [|p rest IH]; intros idx trim; [reflexivity|].
+  cbn [paras_loop repair]. destruct rest as [|q rest'].
+  - reflexivity.
+  - cbn [andb]. destruct (has_prefix q lsep) eqn:Eq.
+    + cbn [run_paras]. assert (Hne : repair (q :: rest') lsep true <> []) by (apply repair_nonempty; discriminate).
+      destruct (repair (q :: rest') lsep true) as [|r0 rr] eqn:Er; [congruence|]. rewrite <- Er. rewrite IH. reflexivity.
+    + cbn [run_paras]. assert (Hne : repair (q :: rest') lsep false <> []) by (apply repair_nonempty; discriminate).
+      destruct (repair (q :: rest') lsep false) as [|r0 rr] eqn:Er; [congruence|]. rewrite <- Er. rewrite IH. reflexivity.
+Qed.
+
+Lemma paras_loop_spec_plain `{Classifier} (op : gpara_op) lsep np psf : forall ps idx,
+  paras_loop op idx ps false false lsep np psf = run_paras op idx ps np psf.
+Proof.
+  induction ps as [|p rest IH]; intro idx; [reflexivity|]. cbn [paras_loop run_paras]. destruct rest as [|q rest'].
+  - reflexivity.
+  - cbn [andb]. rewrite IH. reflexivity.
+Qed.
+
+Theorem apply_gparagraphs_spec `{Classifier} `{Upper} (op : gpara_op) opts e :
+  let o := with_defaults opts in
+  let parts := split (o_parasep o) (o_linesep o) in
+  let psf := decode (hd [] parts) in
+  let np := match parts with _ :: _ :: _ => decode (last parts []) | _ => [] end in
+  apply_gparagraphs op opts e =
+    do transformed <- run_paras op 0 (pieces (e_text e) (o_parasep o) (o_linesep o)) np psf;
+    Ok (with_text e (join (o_parasep o) transformed)).
+Proof.
+  cbv zeta. unfold apply_gparagraphs, pieces.
+  destruct (zlist_eqb (o_parasep (with_defaults opts) ++ o_linesep (with_defaults opts)) (o_linesep (with_defaults opts) ++ o_parasep (with_defaults opts))) eqn:Ea.
+  - rewrite paras_loop_spec. reflexivity.
+  - rewrite paras_loop_spec_plain. reflexivity.
+Qed.
+
 Theorem pieces_count t psep lsep : length (pieces t psep lsep) = length (split t psep).
 Proof.
   unfold pieces. destruct (zlist_eqb _ _); [|reflexivity].
